@@ -77,7 +77,11 @@ type Table struct {
 	mu    sync.Mutex
 	Name  string
 	items map[key]map[string]AV
-	prev  map[key]map[string]AV // state one write ago: what an eventually consistent read may still see
+	byID  map[string]map[int64]struct{} // partition key -> sort keys present
+	// the most recent write, so that an eventually consistent read can be served from the state one write ago
+	lastKey    key
+	lastPrev   map[string]AV // item previously stored under lastKey (nil = absent)
+	hasLast    bool
 	// counters
 	Gets, Puts, Queries, Inconsistent int
 	Region                           string
@@ -85,7 +89,7 @@ type Table struct {
 
 // NewTable creates an empty table called name.
 func NewTable(name string) *Table {
-	return &Table{Name: name, items: map[key]map[string]AV{}, prev: map[key]map[string]AV{}, Region: "us-west-2"}
+	return &Table{Name: name, items: map[key]map[string]AV{}, byID: map[string]map[int64]struct{}{}, Region: "us-west-2"}
 }
 
 func (t *Table) checkTable(name string) error {
@@ -146,12 +150,21 @@ func project(item map[string]AV, proj string, names map[string]string) (map[stri
 	return out, nil
 }
 
-func (t *Table) view(consistent bool) map[key]map[string]AV {
-	if consistent {
-		return t.items
+// lookup returns the item under k as seen by a strongly (consistent) or eventually consistent read; the latter
+// lags exactly one write behind.
+func (t *Table) lookup(k key, consistent bool) map[string]AV {
+	if !consistent {
+		if t.hasLast && k == t.lastKey {
+			return t.lastPrev
+		}
 	}
-	t.Inconsistent++
-	return t.prev
+	return t.items[k]
+}
+
+func (t *Table) noteInconsistent(consistent bool) {
+	if !consistent {
+		t.Inconsistent++
+	}
 }
 
 // Get implements GetItem.
@@ -166,7 +179,8 @@ func (t *Table) Get(table string, k map[string]AV, proj string, names map[string
 	if err != nil {
 		return nil, err
 	}
-	return project(t.view(consistent)[kk], proj, names)
+	t.noteInconsistent(consistent)
+	return project(t.lookup(kk, consistent), proj, names)
 }
 
 // Put implements PutItem with an optional condition expression.
@@ -192,11 +206,12 @@ func (t *Table) Put(table string, item map[string]AV, cond string, names map[str
 		}
 	}
 	// remember the pre-write state for eventually consistent readers
-	t.prev = map[key]map[string]AV{}
-	for k, v := range t.items {
-		t.prev[k] = v
-	}
+	t.lastKey, t.lastPrev, t.hasLast = kk, existing, true
 	t.items[kk] = cloneItem(item)
+	if t.byID[kk.id] == nil {
+		t.byID[kk.id] = map[int64]struct{}{}
+	}
+	t.byID[kk.id][kk.created] = struct{}{}
 	return nil
 }
 
@@ -275,10 +290,11 @@ func (t *Table) Query(table, keyCond string, names map[string]string, values map
 	if !ok || val.Kind != 'S' {
 		return nil, &Error{ErrValidation, "An expression attribute value used in expression is not defined or has the wrong type: " + vn}
 	}
+	t.noteInconsistent(consistent)
 	var keys []key
-	view := t.view(consistent)
-	for k := range view {
-		if k.id == val.S {
+	for c := range t.byID[val.S] {
+		k := key{val.S, c}
+		if t.lookup(k, consistent) != nil {
 			keys = append(keys, k)
 		}
 	}
@@ -293,7 +309,7 @@ func (t *Table) Query(table, keyCond string, names map[string]string, values map
 	}
 	var out []map[string]AV
 	for _, k := range keys {
-		it, err := project(view[k], proj, names)
+		it, err := project(t.lookup(k, consistent), proj, names)
 		if err != nil {
 			return nil, err
 		}
